@@ -1,0 +1,15 @@
+//go:build verif
+
+package smtp
+
+import (
+	"net"
+
+	"github.com/rs/zerolog/log"
+)
+
+// VerifServeConn runs one SMTP session on conn and returns when the session ends
+// (verification hook; only compiled with the verif build tag).
+func (s *Server) VerifServeConn(id int, conn net.Conn) {
+	s.startSession(id, conn, log.Logger)
+}
